@@ -134,7 +134,17 @@ func runC15(c *core.Ctx, o Options) {
 					bad = append(bad, "deadline is "+r+", not the configured s.LogonSettings.CloseTimeout")
 				}
 				cb := an.ClosureFn(af[0].Args[1])
-				if cb == nil || !s.alwaysCancels(cb) {
+				// the session's cancel function itself may be the callback: time.AfterFunc(d, s.cancel)
+				isCancel := false
+				if f, base := an.LoadedField(an.Unwrap(af[0].Args[1])); f != nil && base != nil && s.m.IsSessionVal(base) && an.FieldName(f) == "cancel" {
+					isCancel = true
+				}
+				if ct, isCT := af[0].Args[1].(*ssa.ChangeType); isCT {
+					if f, base := an.LoadedField(ct.X); f != nil && base != nil && s.m.IsSessionVal(base) && an.FieldName(f) == "cancel" {
+						isCancel = true
+					}
+				}
+				if !isCancel && (cb == nil || !s.alwaysCancels(cb)) {
 					bad = append(bad, "the deadline callback does not cancel the session on every path")
 				}
 			}
